@@ -24,6 +24,7 @@ package source
 
 // token conversions are the identity on non-negative ints (strconv.Atoi . strconv.Itoa)
 //@ unit (*StringDatasetContinuation).AsIncrToken
+//@   opt replay
 //@   prop C08
 //@   requires c != nil
 //@   ensures [empty-token-is-zero] c.Token == "" ==> result == 0
